@@ -30,6 +30,8 @@ HOSTILE = [
     "all(upper.__globals__ for __globals__ in [0])", "any(__class__ == 0 for __class__ in [0]) and r.__class__",
     # the helper functions take attribute NAMES as text: a double-underscore name is refused there like it is for r.__x__
     "field_contains(r, ['__slots__'], ['s'])", "field_equals(r, ['__class__'], ['x'])", "field_regex(r, ['__doc__'], '.')", "field_contains(r.tags, ['__doc__'], ['list'])", "field_equals(r, ['s', '__module__'], ['zzz'])",
+    # a list / tuple display is evaluated element by element like everything else: a call or attribute access inside a display that mentions no name at all is still refused
+    "r.s in ['abc'.upper(), 'abc']", "r.n in (1, (lambda: 2)())", "[().__class__] == r.tags", "r.s in [''.join(['a', 'b'])]", "('x'.__class__, 1) == (1, 2)", "r.s in ['%s' % ().__class__]", "[[].append(1)] == [None]",
     "repr.__self__", "str.__subclasses__()", "all.__call__([])", "any.__self__.eval('1')", "lower.__code__", "field_equals.__globals__['__builtins__']", "r.s.format(r)", "'{0.__class__}'.format(r)",
 ]
 # these only look hostile: the callee that is invoked is the whitelisted field type of that name, never the generator variable (no refusal is demanded, only: nothing
